@@ -380,7 +380,13 @@ func c03Batch(run *evid.Run, sys *rmon.Sys, r *rand.Rand, key, mode string, b *b
 			vals := append([]*big.Int{}, b.vals...)
 			vals[i] = alt
 			fired := 0
-			h := rmon.Hints{rmon.NBitsID: rmon.NBitsWhen(v, 256, func(_ *big.Int, nn int) []*big.Int { return rmon.BitsOf(alt, nn) }, &fired)}
+			// any decomposition of this value wide enough to hold the alias is forged (the circuit may use another width than 256)
+			h := rmon.Hints{rmon.NBitsID: rmon.NBitsWhen(v, 0, func(_ *big.Int, nn int) []*big.Int {
+				if nn < alt.BitLen() || nn < 200 {
+					return nil
+				}
+				return rmon.BitsOf(alt, nn)
+			}, &fired)}
 			solve(fmt.Sprintf("N+%d-%s", k, n), fmt.Sprintf("forged/v+%d*r", k), ref.HashToField(b.pack(b.idx, vals)), h, false, map[string]any{"field": n, "k": k, "value": "0x" + v.Text(16)})
 			run.Add("forged_vkr_fired", fired)
 			if v.Sign() == 0 {
@@ -394,7 +400,12 @@ func c03Batch(run *evid.Run, sys *rmon.Sys, r *rand.Rand, key, mode string, b *b
 			vals[i] = alt
 			for nth := 0; nth < 3; nth++ {
 				fired := 0
-				h := rmon.Hints{rmon.NBitsID: rmon.NBitsNth(v, 256, nth, func(_ *big.Int, nn int) []*big.Int { return rmon.BitsOf(alt, nn) }, &fired)}
+				h := rmon.Hints{rmon.NBitsID: rmon.NBitsNth(v, 0, nth, func(_ *big.Int, nn int) []*big.Int {
+					if nn < alt.BitLen() || nn < 200 {
+						return nil
+					}
+					return rmon.BitsOf(alt, nn)
+				}, &fired)}
 				res := sys.Solve(b.assignment(ref.HashToField(b.pack(b.idx, vals))), h)
 				if fired == 0 {
 					break // there is no such call
